@@ -19,6 +19,36 @@ CHECKS = {
          "Every history of length <= 2 (quick) / <= 3 (thorough) over 12 steps (8 apply calls incl. multi-entry call and transaction, Sync, close+reopen, snapshot install in both formats), from a never-opened table; for every FS operation boundary the history is re-run with durability frozen there, unsynced state dropped, the table reopened and compared with the model prefix at the reported index, then the rest of the log re-applied; thorough adds a second crash at every operation of recovery.",
          "Trusted: pebble strict MemFS implements the stated fault model; refkv. No torn writes within a synced file; real disks not modelled.",
          "DESIGN.md section 4, C04"),
+ "C06": ("model_checking",
+         "explicit-state BFS over (log, compaction marker, applied index, cache run, capacity); transitions call the real readers and LogServer.Replicate",
+         "All reachable states up to BFS depth 7 (quick; log <= 4 entries, cache capacities 1,2) / 9 (thorough; <= 5 entries, capacities 1,2,3,8) of a model Raft log (4 entry types) with the REAL Simple/Cached readers, ShardCache and LogServer.Replicate on top; every query start index x 4 size limits checked in every state against: consecutive entries from the requested index, none beyond applied, use-snapshot / leader-behind / empty batch answers, cache transparency, at least one entry.",
+         "Trusted: the 60-line model of dragonboat's ReadonlyLogReader (GetRange/Entries with size cut and at-least-one rule); compaction clears the cache atomically. Visited set keyed by the complete tuple incl. the cache's index run (hook dump).",
+         "DESIGN.md section 4, C06"),
+ "C08": ("exploration",
+         "bounded exhaustive enumeration of histories x formats x receiver states x interposed writes/stop signals, crash-point enumeration of installs, API-level read/install interleavings",
+         "Fidelity matrix over every history of length <= 2 (quick) / <= 3 (thorough) x saver/receiver formats x fresh/stale receiver x writes between prepare and save and from inside save at every output write; stop signal at every read of recover / write of save; crash at every FS operation of histories with installs; install placed before every step of a reader program (unary read, lazy stream pulled message by message).",
+         "Trusted: refkv-free differential oracle (saver state at prepare time); strict MemFS fault model for the crash part. Statement-level preemption inside Lookup is not explored (API granularity).",
+         "DESIGN.md section 4, C08"),
+ "C13": ("exploration",
+         "bounded exhaustive sequence enumeration on the real kv.LFSM vs a CAS-register-map model, all batchings, snapshot round trip",
+         "Every update sequence up to length 3 (quick) / 4 (thorough) over 36 updates (set/delete x 3 keys x {0,current,previous,current+1} versions x 2 values) and every sequence up to length 2 over 120 updates (6 keys, far-future version, empty value): result codes and payloads, get/exists/globs vs model, list/listdir history-independence, snapshot->recover into a non-empty store, a second replica under every batching.",
+         "Trusted: the map model; entries are built exactly as RaftStore marshals them. RaftStore's error mapping over a real NodeHost is exercised by the engine-based checks.",
+         "DESIGN.md section 4, C13"),
+ "C14": ("model_checking",
+         "stateless interleaving exploration (cooperative scheduler, unbounded preemptions, visited-state pruning on a complete key) of real Manager catalogue calls + exhaustive enumeration of diffTables",
+         "ALL interleavings at store-call granularity (with and without replica lag) of 2-3 real Managers running 1-2 of {create a, create b, delete a, allocate id} from 2 initial catalogues, checked on the committed log (no creation while the name exists, ids distinct/increasing, results agree, catalogue = model); plus every catalogue of <= 3 tables x every subset of 6 running shard ids through diffTables.",
+         "Trusted: the store adapter's model of dragonboat (append = commit, deterministic LFSM results, stale reads with own writes); lag reduction argument in DESIGN.md. Engine-level sequences (emptiness of recreated tables, isolation, reconcile) are covered only when evidence key engine_sequences is present.",
+         "DESIGN.md section 4, C14"),
+ "C15": ("model_checking",
+         "stateless interleaving exploration (cooperative scheduler, unbounded preemptions, replica lag as data choice, visited-state pruning) of real LeaseTable/ReturnTable",
+         "ALL interleavings, at the granularity of individual metadata-store reads and writes plus the lag of every stale read, of 1-2 lease/renew/return calls per node for 2 nodes (all program pairs) and 3 nodes, from 3 initial lease records; oracle on the committed log: no lease granted over another node's unexpired lease, return removes only the caller's lease, results agree with the log, at most one believer.",
+         "Trusted: the store adapter's model of dragonboat; durations +1h/-1h so no wall-clock dependence.",
+         "DESIGN.md section 4, C15"),
+ "C19": ("model_checking",
+         "exhaustive update sequences on the real shardView + BFS over {local observation, gossip i->j} through the real memberlist delegate",
+         "Every sequence of length <= 4 (quick) / <= 5 (thorough) over 19 updates consistent with a ground truth (one leader per term, one membership per config index), one per call and all in one call, checked after every step against a function of the SET of updates (order/repetition independence) and for non-regression; BFS over 2 and 3 simulated nodes with visited set on the tuple of complete views; agreement after all-pairs gossip.",
+         "Trusted: ground-truth assumption (Raft: <=1 leader per term). All transitions run the real update/merge/LocalState/MergeRemoteState code (hook exports only).",
+         "DESIGN.md section 4, C19"),
  "C09": ("exploration",
          "bounded exhaustive enumeration of contents x bounds x limits x forms (and value-size orders) vs reference model",
          "All 64 subsets of 6 keys x 100 bound pairs x every limit 0..n+1 x 3 forms, unary and streamed; every content of up to 3 (quick) / 5 (thorough) pairs with sizes from {1KiB,1MiB,2MiB-1KiB,2MiB} for size cuts, per-message size/flags/counts, and a write between any two pulls of a stream.",
